@@ -111,6 +111,10 @@ func runMapOrder(run *ev.Run, base string) {
 	}
 	ovDir := filepath.Join(base, "overlay")
 	goenv := append(os.Environ(), "GOFLAGS=-mod=mod", "GOPROXY=off", "GOSUMDB=off", "GOTOOLCHAIN=local")
+	if pc := os.Getenv("VERIF_PERSISTENT_GOCACHE"); pc != "" {
+		// building the rewriter and the overlaid goverter depends only on /repo and /verif sources: keep it cached
+		goenv = append(goenv, "GOCACHE="+pc)
+	}
 	sh := func(dir string, args ...string) (string, error) {
 		cmd := exec.Command(args[0], args[1:]...)
 		cmd.Dir = dir
